@@ -415,7 +415,7 @@ fn spawn_model(name: String, body: Box<dyn FnOnce() + Send + 'static>) -> Tid {
     });
     st.live_os += 1;
     let ex2 = ex.clone();
-    pool_run(Box::new(move || os_job(ex2, tid, body)));
+    pool_run(tid, Box::new(move || os_job(ex2, tid, body)));
     tid
 }
 
@@ -424,28 +424,26 @@ fn spawn_model(name: String, body: Box<dyn FnOnce() + Send + 'static>) -> Tid {
 
 type Job = Box<dyn FnOnce() + Send + 'static>;
 
-static IDLE: Mutex<Vec<std::sync::mpsc::Sender<Job>>> = Mutex::new(Vec::new());
+/// Model thread `k` of every execution runs on pooled OS thread `k`: thread-local state of the code
+/// under test then behaves as on long-lived threads and, more importantly, identically from one
+/// execution to the next (the explorer depends on executions being reproducible).
+static POOL: Mutex<Vec<std::sync::mpsc::Sender<Job>>> = Mutex::new(Vec::new());
 
-fn pool_run(job: Job) {
-    let idle = IDLE.lock().unwrap_or_else(|e| e.into_inner()).pop();
-    let tx = match idle {
-        Some(tx) => tx,
-        None => {
-            let (tx, rx) = std::sync::mpsc::channel::<Job>();
-            let mine = tx.clone();
-            std::thread::Builder::new()
-                .stack_size(1024 * 1024)
-                .spawn(move || {
-                    while let Ok(job) = rx.recv() {
-                        let _ = panic::catch_unwind(AssertUnwindSafe(job));
-                        IDLE.lock().unwrap_or_else(|e| e.into_inner()).push(mine.clone());
-                    }
-                })
-                .expect("cannot spawn OS thread");
-            tx
-        }
-    };
-    tx.send(job).expect("pooled thread is gone");
+fn pool_run(tid: Tid, job: Job) {
+    let mut pool = POOL.lock().unwrap_or_else(|e| e.into_inner());
+    while pool.len() <= tid {
+        let (tx, rx) = std::sync::mpsc::channel::<Job>();
+        std::thread::Builder::new()
+            .stack_size(1024 * 1024)
+            .spawn(move || {
+                while let Ok(job) = rx.recv() {
+                    let _ = panic::catch_unwind(AssertUnwindSafe(job));
+                }
+            })
+            .expect("cannot spawn OS thread");
+        pool.push(tx);
+    }
+    pool[tid].send(job).expect("pooled thread is gone");
 }
 
 fn os_job(ex: Arc<Exec>, tid: Tid, body: Box<dyn FnOnce() + Send + 'static>) {
@@ -911,7 +909,7 @@ pub fn run_one<V>(cfg: RunCfg, body: Box<dyn FnOnce() + Send + 'static>, judge: 
         });
         st.live_os += 1;
         let ex2 = ex.clone();
-        pool_run(Box::new(move || os_job(ex2, 0, body)));
+        pool_run(0, Box::new(move || os_job(ex2, 0, body)));
         st.current = Some(0);
         st.th[0].cv.notify_one();
     }
